@@ -19,3 +19,46 @@ def with_models(v):
     v.handlers.update(STDLIB)
     v.ann_resolver = make_resolver(v.repo)
     return v
+
+
+def task(v, label, f):
+    """(label, fn) for Session.attempt_all; fn.ver lets the worker report which functions/assumptions it used"""
+    f.ver = v
+    return (label, f)
+
+
+def opaque_geometry_specs(v):
+    """Spec functions of contracts.geometry on *opaque* geometries (C12, C06, positions of C05): uninterpreted
+    bounds / validity; on modelled geometry objects the real spec text is inlined."""
+    import z3
+    from pyvc.values import Tup, Num, Bool, Opq, opaque_sort
+    GS = opaque_sort("Geometry")
+    B = [z3.Function(f"bounds_{k}", GS, z3.RealSort()) for k in range(4)]
+    VALID = z3.Function("valid_geometry", GS, z3.BoolSort())
+
+    def inline(ex, name, args, p):
+        m = v.repo.module("contracts.geometry")
+        return ex.call_repo_function(m, m.defs[name], args, {}, p, qual="contracts.geometry." + name)
+
+    def bounds_of(ex, p, args, kw, node):
+        g = args[0]
+        if isinstance(g, Opq):
+            return [(p, Tup([Num(f(g.t)) for f in B]))]
+        return v.handlers["contracts.geometry.bounds_of#obj"](ex, p, args, kw, node)
+
+    def is_bounds(ex, p, args, kw, node):
+        b, g = args
+        if isinstance(g, Opq):
+            return [(p, Bool(z3.And([b.items[k].real() == B[k](g.t) for k in range(4)])))]
+        return inline(ex, "is_bounds", args, p)
+
+    def valid_geometry(ex, p, args, kw, node):
+        g = args[0]
+        if isinstance(g, Opq):
+            return [(p, Bool(VALID(g.t)))]
+        return inline(ex, "valid_geometry", args, p)
+
+    v.handlers["contracts.geometry.bounds_of"] = bounds_of
+    v.handlers["contracts.geometry.is_bounds"] = is_bounds
+    v.handlers["contracts.geometry.valid_geometry"] = valid_geometry
+    return v
